@@ -31,7 +31,7 @@ LEVEL_TEXT = ('exploration: ~7*10^2 (quick) / ~6*10^3 (thorough) ODE problems, e
               'for bit between evaluation histories and against the closed form')
 LEVEL_NOTE = 'ODEs and histories not generated are not covered; closed forms rely on the reference release at high precision'
 TECHNIQUE = 'history check on the live object (differential run against an in-order run) + closed-form reference monitor'
-SHARD_TIMEOUT = {'quick': 500, 'thorough': 3000}
+SHARD_TIMEOUT = {'quick': 1800, 'thorough': 7200}
 
 NSHARDS = 16
 COUNTS = {'quick': 45, 'thorough': 400}
